@@ -3,6 +3,7 @@ C09 helper lemmas, part 2: what `variant` copies (per visit), that nothing of th
 copied, that references stay inside one visit, and the offsets / length of the result.
 -/
 import PartituraModel.Model.Unfold
+import PartituraModel.Model.UnfoldFam
 
 namespace C09
 open Model.Unfold
